@@ -106,6 +106,14 @@ func H_ProfMain() {
 		vFound = append(vFound, disasm.Syscall{Num: num, Name: name})
 		foundNames = append(foundNames, name)
 	}
+	// C12's obligation, used as a lemma here: no name has two numbers (different numbers carry
+	// different names). Without it every duplicate-freedom query re-proves the injectivity of the
+	// whole table (tens of seconds each).
+	for i := range vFound {
+		for j := i + 1; j < len(vFound); j++ {
+			vAssume(vImplies(vFound[i].Num != vFound[j].Num, vFound[i].Name != vFound[j].Name))
+		}
+	}
 	blacklist, allowList = nil, nil
 	for i := 0; i < nb; i++ {
 		blacklist = append(blacklist, vEqStr("black"+strconv.Itoa(i)))
